@@ -49,19 +49,19 @@ func Send(rw io.ReadWriter, streamData *stream.Info, ws bool, version stream.Ver
 	}
 
 	if id != "" {
-		_, err = fmt.Fprintf(b, " id='%s'", id)
+		err = writeAttr(b, "id", id)
 		if err != nil {
 			return err
 		}
 	}
 	if to != "" {
-		_, err = fmt.Fprintf(b, " to='%s'", to)
+		err = writeAttr(b, "to", to)
 		if err != nil {
 			return err
 		}
 	}
 	if from != "" {
-		_, err = fmt.Fprintf(b, " from='%s'", from)
+		err = writeAttr(b, "from", from)
 		if err != nil {
 			return err
 		}
@@ -99,6 +99,21 @@ func Send(rw io.ReadWriter, streamData *stream.Info, ws bool, version stream.Ver
 // If not, an error is returned. It then handles feature negotiation for the new
 // stream.
 // If an XML header is discovered instead, it is skipped.
+// writeAttr writes an attribute with the value properly escaped (JIDs may
+// contain quotes, ampersands and angle brackets in the resourcepart).
+func writeAttr(b *bufio.Writer, name, value string) error {
+	_, err := fmt.Fprintf(b, " %s='", name)
+	if err != nil {
+		return err
+	}
+	err = xml.EscapeText(b, []byte(value))
+	if err != nil {
+		return err
+	}
+	_, err = b.WriteString("'")
+	return err
+}
+
 func Expect(ctx context.Context, in *stream.Info, d xml.TokenReader, recv, ws bool) error {
 	// Skip the XML declaration (if any).
 	d = negotiateReader(decl.Skip(d), ws)
